@@ -270,6 +270,9 @@ func (r *copyRun) options(conc int) oras.CopyGraphOptions {
 	cb := func(name string) func(ctx context.Context, d ocispec.Descriptor) error {
 		return func(ctx context.Context, d ocispec.Descriptor) error {
 			n := r.u.IDOf(d)
+			if name == "mounted" {
+				r.log("pushOk", n) // the mount itself succeeded: the content is there, whatever the callback says
+			}
 			if f := r.faultFor(name, n); f != nil {
 				if err := r.fire(f, n); err != nil {
 					return err
@@ -284,6 +287,7 @@ func (r *copyRun) options(conc int) oras.CopyGraphOptions {
 		PreCopy:       cb("preCopy"),
 		PostCopy:      cb("postCopy"),
 		OnCopySkipped: cb("skipped"),
+		OnMounted:     cb("mounted"),
 		FindSuccessors: func(ctx context.Context, fetcher content.Fetcher, d ocispec.Descriptor) ([]ocispec.Descriptor, error) {
 			n := r.u.IDOf(d)
 			if f := r.faultFor("succs", n); f != nil {
@@ -457,4 +461,30 @@ func emitRun(ctx context.Context, sc *Script, r *copyRun, err error, dst content
 	sc.Op(presentSet(ctx, dst, r.u), "cp present")
 	sc.Op(closedTruth(ctx, dst, r.u), "cp closed")
 	sc.Count("result:" + res)
+}
+
+// mountTarget makes the instrumented target a registry.Mounter: per node the mount either
+// succeeds (the content appears without a transfer) or fails, in which case the content is
+// obtained through getContent - which may tell the mounter to try the next repository.
+type mountTarget struct {
+	*instrTarget
+	seed int64
+}
+
+func (m *mountTarget) mountSucceeds(n int) bool { return (int64(n)*7+m.seed)%3 == 0 }
+
+func (m *mountTarget) Mount(ctx context.Context, d ocispec.Descriptor, fromRepo string, getContent func() (io.ReadCloser, error)) error {
+	n := m.r.u.IDOf(d)
+	if m.mountSucceeds(n) {
+		if err := m.instrDst.inner.Push(ctx, d, bytes.NewReader(m.r.u.Nodes[n].Bytes)); err != nil && !errors.Is(err, errdef.ErrAlreadyExists) {
+			return err
+		}
+		return nil
+	}
+	rc, err := getContent()
+	if err != nil {
+		return err
+	}
+	defer rc.Close()
+	return m.instrTarget.Push(ctx, d, rc)
 }
